@@ -146,6 +146,9 @@ func RunC10(env *sim.Env) {
 		if o.Probes.NFired > 1 {
 			env.Stat("probe:two_failures_in_one_execution", 1)
 		}
+		if o.VarsChanged != "" {
+			env.Violate("inputs-untouched", "caller-varmap-changed", "call %q: Execute changed the VarMap the caller passed in (%s); a caller that keeps its VarMap gets another rendering from the next Execute with the same inputs.\nhistory: %s", call.String(), o.VarsChanged, strings.Join(hist[max(0, len(hist)-4):], " ; "))
+		}
 		if o.Key() == want.Key() {
 			return
 		}
